@@ -1,4 +1,5 @@
 """C09 Emitted escape sequences are well-formed, self-contained and strippable."""
+import collections
 import enum
 import itertools
 from decimal import Decimal
@@ -58,6 +59,7 @@ class VfCode(int):
     """a colour code of the application's own type"""
 
 
+VfRGB = collections.namedtuple("VfRGB", "r g b")
 VfShade = enum.IntEnum("VfShade", {"HOT": 196, "COLD": 21, "BLACK": 0, "LAST": 255})
 
 
@@ -85,6 +87,8 @@ def rand_value(rng):
         return rng.choice([VfCode(rng.randrange(256)), rng.choice(list(VfShade))])
     if r < 0.8:
         t = (rng.randrange(6), rng.randrange(6), rng.randrange(6))
+        if rng.random() < 0.25:
+            return VfRGB(*t)       # (a named tuple of the application is a tuple)
         return t   # (a list [r, g, b] raises TypeError 'unhashable': only tuples are documented)
     return f"g{rng.randrange(24)}"
 
@@ -92,8 +96,10 @@ def rand_value(rng):
 def check_spec(ctx, color, bg, effects, text, case):
     """one formatter over one text; returns the chunk (or None)"""
     kw = {k: True for k in effects}
+    # (an effect is switched on by any true value: a flag read from a settings file is often 1 or "yes")
+    given = {k: (True, 1, "yes", 2)[(len(text) + i) % 4] for i, k in enumerate(effects)}
     try:
-        f = ColorFmt(color, bg_color=bg, **kw)
+        f = ColorFmt(color, bg_color=bg, **given)
         chunk = f(text)
         out = str(chunk)
     except Exception as err:
